@@ -11,13 +11,21 @@ from harness import HARNESSES, SymCtx, ConcCtx
 _G = {}
 
 
-def _init(mir_path, repo_root, src_dir, native_bin, prop_modules, known_roles=()):
+def _init(mir_path, repo_root, src_dir, native_bin, prop_modules, known_roles=(), cli_paths=None):
     _G['known_roles'] = set(known_roles)
+    _G['cli_paths'] = cli_paths
     z3.set_param('parallel.enable', False)
-    crate = engine.load_crate(mir_path, repo_root, src_dir)
+    if cli_paths:
+        import cli
+        crate = cli.load_merged(cli_paths)
+    else:
+        crate = engine.load_crate(mir_path, repo_root, src_dir)
     _G['crate'] = crate
     _G['I'] = Interp(crate, models.Models())
     _G['native'] = implmod.NativeImpl(native_bin) if native_bin else None
+    if cli_paths and _G['native'] is not None:
+        import cli
+        _G['native'].cli = cli.NativeCli(cli_paths['cli_bin'])
     for m in prop_modules:
         __import__(m)
 
